@@ -86,7 +86,7 @@ def _prepare(r):
     elif init["kind"] == "product":
         # product state is given per *qubit* (wire), independent of the order
         per = {qs[i]: init["v"][i] for i in range(len(qs))}
-        psi0 = L.kron_all([KETS[per[q]] for q in order])
+        psi0 = L.kron_all([KETS[per[q]] for q in order]).reshape(-1)
         ps = None
         for q in qs:
             f = getattr(cirq, KET_OBJ[per[q]])(q)
@@ -156,7 +156,15 @@ def oracle_entrypoints(r):
     _cmp(f"Simulator(split={r['split']}).simulate final_state_vector", res.final_state_vector, psi, tol)
     # step-by-step: prefix products per moment
     psi_m = psi0
-    for k, (step, moment) in enumerate(itertools.zip_longest(sim.simulate_moment_steps(circuit, qubit_order=order, **kw), circuit)):
+    steps = sim.simulate_moment_steps(circuit, qubit_order=order, **kw)  # lazily: step results are mutated in place
+    if len(circuit) == 0:
+        # documented: an empty circuit still yields one step holding the initial state
+        steps = list(steps)
+        if len(steps) != 1:
+            raise Violation(f"simulate_moment_steps of an empty circuit yields {len(steps)} steps")
+        _cmp("simulate_moment_steps (empty circuit) state_vector", steps[0].state_vector(copy=True), psi0, tol)
+        steps = []
+    for k, (step, moment) in enumerate(itertools.zip_longest(steps, circuit)):
         if step is None or moment is None:
             raise Violation("simulate_moment_steps yields a different number of steps than the circuit has moments")
         mops = [(cirq.unitary(op), [order.index(q) for q in op.qubits]) for op in moment.operations]
@@ -393,12 +401,12 @@ def oracle_classical_rejects(r):
 
 
 SUBCHECKS = [
-    SubCheck("entrypoints", _case(), oracle_entrypoints, quick=1400, thorough=60000, shards_quick=8, shards_thorough=16,
+    SubCheck("entrypoints", _case(), oracle_entrypoints, quick=4800, thorough=120000, shards_quick=8, shards_thorough=16,
              essential={"odd_layout": 0.15, "noncommuting": 0.3}),
-    SubCheck("entrypoints_wide", _case(max_w=6, max_ops=24, qudits=False), oracle_entrypoints, quick=120, thorough=12000,
+    SubCheck("entrypoints_wide", _case(max_w=6, max_ops=24, qudits=False), oracle_entrypoints, quick=300, thorough=12000,
              shards_quick=2, shards_thorough=16),
-    SubCheck("order_metamorphic", _case(), oracle_order_metamorphic, quick=500, thorough=25000, shards_quick=2),
-    SubCheck("sweep_prefix", _sweep_case(), oracle_sweep, quick=400, thorough=20000, shards_quick=2),
+    SubCheck("order_metamorphic", _case(), oracle_order_metamorphic, quick=1000, thorough=25000, shards_quick=2),
+    SubCheck("sweep_prefix", _sweep_case(), oracle_sweep, quick=800, thorough=20000, shards_quick=2),
     SubCheck("classical", _classical_case(), oracle_classical, quick=1500, thorough=60000, shards_quick=1, shards_thorough=8),
     SubCheck("classical_rejects", st.fixed_dictionaries({"g": G.gate_recipes(lambda f: f.unitary and not f.qudit and "zeroq" not in f.tags)}),
              oracle_classical_rejects, quick=400, thorough=10000, shards_quick=1, shards_thorough=4),
